@@ -56,8 +56,17 @@ func main() {
 		pos = append(pos, args[0])
 		args = args[1:]
 	}
-	fs.Parse(args)
-	pos = append(pos, fs.Args()...)
+	// flags and positional arguments may be interleaved (the flag package stops at the first
+	// positional argument: keep parsing after each one)
+	for {
+		fs.Parse(args)
+		rest := fs.Args()
+		if len(rest) == 0 {
+			break
+		}
+		pos = append(pos, rest[0])
+		args = rest[1:]
+	}
 	if o.Tier == "" {
 		o.Tier = os.Getenv("VERIF_TIER")
 	}
@@ -85,13 +94,15 @@ func main() {
 		os.Exit(cmdList(&o))
 	case "rebaseline":
 		os.Exit(cmdRebaseline(&o, pos))
+	case "replay":
+		os.Exit(cmdReplay(&o, pos))
 	default:
 		usage()
 	}
 }
 
 func usage() {
-	fmt.Fprintln(os.Stderr, "usage: govc check <ID|all> [--tier quick|thorough] | verify <func-substring>... | ssa <func-substring> | list | rebaseline")
+	fmt.Fprintln(os.Stderr, "usage: govc check <ID|all> [--tier quick|thorough] | verify <func-substring>... | ssa <func-substring> | list | rebaseline | replay <ID> <replay-file>")
 	os.Exit(2)
 }
 
